@@ -19,3 +19,8 @@ claim("C16", "model_checking",
       "numpy linear algebra; equivalence judged with the reference solver on the extracted result",
       "explicit-state BFS/DFS over real transformer calls with a reference model of each transition",
       "DESIGN.md section 4 C16")
+claim("C07", "model_checking",
+      "Every component constructor with its parameter palette (including 0, infinity, w=0) is translated at every analysis frequency of an alphabet placed relative to the component's own frequency and both resolutions, in every list position among bystanders drawn from every other kind and with every ground placement; the resulting network is compared branch by branch (identity, terminal order, immittance, source phasor, off-frequency short/open, reference node) with a reference translation, and transform() with the list of single transformations.",
+      "float cos/sin; reference closed-form harmonics (validated against quadrature by C08); parameter palettes",
+      "bounded-exhaustive enumeration of constructor x parameter x frequency x context on the implementation against a reference model",
+      "DESIGN.md section 4 C07")
